@@ -28,8 +28,18 @@ NREAL = {"quick": 1, "thorough": 8}  # Engine-A stress runs per shard
 
 def worker(ctx):
     """Engine B part (controlled schedules) followed by the Engine A part (real scheduler processes)."""
-    _engb_worker(ctx)
+    import os
+
+    if not os.environ.get("XV_ONLY_ENGA"):  # (exploration aid: only the real-process part)
+        _engb_worker(ctx)
     for _ in range(NREAL[ctx.tier]):
         A.run_stress(ctx, PROPERTY, "token-kill", ctx.rng)
         for _ in range(2):
             A.run_directed_race(ctx, ctx.rng)
+    # single-delay sweep over the statements of the token / lock code (quick: one statement per shard; thorough: all)
+    pts = A.preemption_points()
+    mine = pts[ctx.shard :: ctx.nshards]
+    if ctx.tier == "quick":
+        mine = [mine[ctx.rng.randrange(len(mine))]] if mine else []
+    for pt in mine:
+        A.run_stress(ctx, PROPERTY, "token-kill", ctx.rng, delay_at=pt)
